@@ -157,6 +157,16 @@ class Report:
                 discharged += 1
                 by_backend[r.get("backend", "?")] = by_backend.get(r.get("backend", "?"), 0) + 1
                 continue
+            if v == "vacuous" and any(kk.startswith(f"{r['function']}[{r['case']}]") for kk in ledger):
+                # obligations of this (function, case) were discharged on the committed tree and cannot even be
+                # generated now (the loop / path they belong to is no longer reached): the code changed shape
+                self.undecided.append((r["name"], "obligations of the committed tree can no longer be generated: " + r.get("reason", "")))
+                continue
+            if v == "checker-error" and any(kk.startswith(f"{r['function']}[") for kk in ledger):
+                # the contract code itself failed (e.g. it names a local variable that no longer exists) on a function
+                # whose obligations were discharged on the committed tree: the code changed; not a verdict either way
+                self.undecided.append((r["name"], "contract could not be evaluated on the changed code: " + (r.get("reason", "") or "")[-300:]))
+                continue
             if v in ("checker-error", "vacuous"):
                 self.errors.append((r["name"], r.get("reason", "")))
                 continue
